@@ -63,7 +63,24 @@ pub fn run_isolate(ex: &mut Executor, runs: &[(IsoRole, ExecSpec)], by_fee: bool
     }
     let n0 = normalise(&r0, &ref_spec.input, by_fee);
     if n0.contains_key(&u16::MAX) {
-        // a message that cannot be attributed to a packet (fatal etc.): not a C06 workload
+        // a message that cannot be attributed to a packet (fatal etc.): not a C06 workload - unless the fatal is about
+        // the system ID of the data, which the tool takes from the FIRST packet it analyses: a system ID no detector
+        // has on a LATER packet is a finding about that packet's link, and must not end the run for all the others
+        let sysid_fatal = oracle::log_messages(&r0.stderr)
+            .iter()
+            .any(|m| m.level == "ERROR" && (m.text.contains("Unknown system ID") || m.text.contains("Failed to parse system ID")));
+        let first_known = walk(&ref_spec.input).pkts.first().map_or(true, |p| crate::t_stream::system_name(p.rdh.system_id).is_some());
+        if sysid_fatal && first_known && !ref_spec.argv.iter().any(|a| ["-f", "-F", "-s"].contains(&a.as_str())) {
+            out.fail = Some(Fail::new(
+                "isolation",
+                "fatal-for-a-finding-of-one-link",
+                format!(
+                    "the run ends with a fatal about the system ID although the first packet of the input names a known system: a later packet of one link ended the analysis of all links [cmd: {}]",
+                    ref_spec.cmdline()
+                ),
+            ));
+            return out;
+        }
         out.nontrivial = false;
         return out;
     }
